@@ -256,11 +256,27 @@ def run(ctx):
                 "turns an arbitrary cookie (`fr-CA` when only `fr` is configured) into a locale that overrides the Accept-Language header", only=r"from_str", floor=1)
     if not k13[1] and not r5.violations:
         r5.viol("R5:undecided", "the generator cannot be interpreted on the current code: not decided on this tree (fail closed)")
-    return [r1_chains(ctx), r2_cookie(ctx), r3_own_options(ctx), r4, r5]
+    # the precedence itself: the initialisers interpreted over a model of signals / memos / cookie / header / <html lang> / parent
+    # context (rules/localeeval.py).  The chain-extraction and fragment rules R1 / R2 on the same functions are the fallback when the
+    # evaluator reports `undecided`.
+    from rules import localeeval, absint as _absint
+    r6 = Rule("C15.R6", "the initial locale is cookie, else the negotiated locale; sub-context: cookie, explicit initial locale, parent, then the same",
+              "`The initial locale is the cookie's locale when the cookie holds a configured locale name, otherwise the best match ..., otherwise the default. For a sub-context "
+              "the order is cookie, explicit initial locale, parent context's locale, then the same resolution`", floor=2)
+    decided = True
+    try:
+        localeeval.check_main(ctx, r6, "R6")
+        localeeval.check_sub(ctx, r6, "R6")
+    except _absint.Unknown as u:
+        decided = False
+        r6.viol("R6:undecided", "the initialisers cannot be interpreted on the current code (%s): not decided on this tree (fail closed); the structural rules R1 / R2 follow" % str(u)[:300])
+    if decided:
+        return [r6, r3_own_options(ctx), r4, r5]
+    return [r6, r1_chains(ctx), r2_cookie(ctx), r3_own_options(ctx), r4, r5]
 
 
 MANIFEST_ENTRY = {
-    "technique": "static analysis: priority-chain extraction (rules/chains.py) for the main resolution, the hydrate and ssr/csr variants and the sub-context memo, compared with the documented order; the negotiation clause of C12.R0 (the header / navigator fallback is find_locale's best match, evaluated over a closed universe); MIR path enumeration (py/mirsum.py) of resolve_locale_with_options: every path answers from the call's own options and consults no other state; canonical-form comparison of the once-then helpers and cookie acquisition; the from_str clauses of C13.R0 (the cookie codec accepts exactly the configured names)",
+    "technique": "static analysis: priority-chain extraction (rules/chains.py) for the main resolution, the hydrate and ssr/csr variants and the sub-context memo, compared with the documented order; the negotiation clause of C12.R0 (the header / navigator fallback is find_locale's best match, evaluated over a closed universe); MIR path enumeration (py/mirsum.py) of resolve_locale_with_options: every path answers from the call's own options and consults no other state; canonical-form comparison of the once-then helpers and cookie acquisition; the from_str clauses of C13.R0 (the cookie codec accepts exactly the configured names); abstract evaluation (rules/localeeval.py) of init_i18n_context_with_options, init_subcontext_with_options, fetch_locale (with its helpers) and resolve_locale over a model of signals / memos (first value and the value after the inputs moved on), the cookie, the negotiated locale, <html lang> and the parent context, in the ssr / hydrate / csr configurations - the chain extraction is now the fallback",
     "level_text": "Structural, one clause: the order in which the sources of the initial locale are consulted is read off the code for each configuration (ssr / hydrate / csr / sub-context first and later runs) and compared with the documentation. What a running reactive graph shows is not applicable to static analysis and is not claimed.",
     "level_note": "Trusted: Option combinator semantics, leptos-use cookie/header handling. Not decided: run-time reactive behaviour.",
 }
